@@ -611,6 +611,23 @@ struct Child
                 w.key("decl").str(p.declaration);
                 w.key("nsubj").num((long long)p.subjections.size());
                 w.key("dump").str(dm.expr(p.intermediate));
+                {
+                    // types of process-qualified names P.x (P's arguments must be substituted into them)
+                    w.key("member_types").arr();
+                    std::vector<expression_t> stack{p.intermediate};
+                    while (!stack.empty()) {
+                        expression_t n = stack.back();
+                        stack.pop_back();
+                        if (n.empty())
+                            continue;
+                        if (n.get_kind() == Constants::DOT && n.get_size() == 1 && !n.get(0).empty() &&
+                            n.get(0).get_type().is_process())
+                            w.arr().str(dm.expr(n)).str(dm.type(n.get_type())).end();
+                        for (size_t ci = 0; ci < n.get_size(); ++ci)
+                            stack.push_back(n.get(ci));
+                    }
+                    w.end();
+                }
                 if (p.expect) {
                     if (std::holds_alternative<double>(p.expect->result)) {
                         char b[64];
